@@ -445,7 +445,9 @@ class Trace:
                 bad.append(((i, j), d))
         if bad:
             (i, j), d = bad[0]
-            return REFUTED, f"{len(bad)}/{cnt} entries differ; first ({i},{j}): nonzero normal form of lhs-rhs numerator = {low.R.show(d.num, 6)}", cnt
+            shown = low.R.show(d.num, 6)
+            signs = "; ".join(f"{low.R.names[sv]} = sign({low.R.show(f, 4)})" for sv, f in getattr(low.R, "sign_of", {}).items() if low.R.names[sv] in shown)
+            return REFUTED, f"{len(bad)}/{cnt} entries differ; first ({i},{j}): nonzero normal form of lhs-rhs numerator = {shown}" + (f"  [{signs}]" if signs else ""), cnt
         return PROVED, f"{cnt} entries: normal forms equal", cnt
 
     # ------------------------------------------------------------------
